@@ -37,7 +37,7 @@ class HistoryRunner:
     """Performs one random operation per call to step(); never raises (failed API calls are part of the history)."""
 
     KINDS = ["create", "create", "delete", "delete", "move", "move_sibling", "move_sibling", "link_add", "link_del", "attr_set", "create_bad",
-             "setlist", "clear", "reqrel_create", "reqrel_del", "new_namespace"]
+             "setlist", "clear", "reqrel_create", "reqrel_del", "new_namespace", "delete_linked"]
 
     def __init__(self, model, rng: random.Random, savedir=None, kinds: list[str] | None = None):
         self.model, self.rng, self.savedir = model, rng, savedir
@@ -136,6 +136,48 @@ class HistoryRunner:
                     self._last = f"del {type(o).__name__}({o.uuid}).{name}[{i}] ({lst[i].uuid})"
                     del lst[i]
                     return self._last
+        return None
+
+    def _link_types(self):
+        if not hasattr(self, "_lt"):
+            self._lt = graph.link_element_types()
+        return self._lt
+
+    def op_delete_linked(self):
+        """delete an object that a link element refers to — preferably a link element owned by the ROOT element of a fragment
+        (which has no XML parent), so that the purge happens next to a fragment boundary"""
+        import re
+        from capellambse.model import _obj
+        loader = self.model._loader
+        cands_root, cands_other = [], []
+        for p, tree in loader.trees.items():
+            if p.suffix not in graph.SEMANTIC or p.parts[0] != "\0":
+                continue
+            for e in tree.root.iter():
+                if not isinstance(e.tag, str) or e.getparent() is None or e.get(graph.XSI_TYPE) not in self._link_types():
+                    continue
+                par = e.getparent()
+                for k, v in e.attrib.items():
+                    if k in ("id", "href") or "#" not in v or " " in v.strip().replace("  ", " ") and v.count("#") > 1:
+                        continue
+                    m = re.search(r"#([A-Za-z0-9_-]+)$", v.strip())
+                    if m:
+                        (cands_root if par.getparent() is None else cands_other).append(m.group(1))
+        for pool in ([cands_root, cands_other] if self.rng.random() < 0.6 else [cands_other, cands_root]):
+            self.rng.shuffle(pool)
+            for tid in pool[:30]:
+                try:
+                    o = self.model.by_uuid(tid)
+                except Exception:  # noqa: BLE001
+                    continue
+                if not self._alive(o):
+                    continue
+                cont = self.container_of(o)
+                if cont is None:
+                    continue
+                self._last = f"delete (referenced by a link element) {type(o).__name__}({o.uuid}) from {type(cont[0]).__name__}.{cont[1]}"
+                getattr(cont[0], cont[1]).remove(o)
+                return self._last
         return None
 
     def _requirement(self):
